@@ -214,8 +214,21 @@ def _sign_ops(prog, res):
   for loop in ast.walk(fn.node):
     if isinstance(loop, ast.For):
       temp_ok = False
-      SLOPE = ('heights[i-1]*(lengths[i]/lengths[i-1])',
-               'heights[i-1]*lengths[i]/lengths[i-1]')
+      # the unstacked rows may be held under any local name: H / L are the
+      # lists made by tf.unstack of the heights / lengths
+      H, L = 'heights', 'lengths'
+      for st0 in ast.walk(fn.node):
+        if isinstance(st0, ast.Assign) and isinstance(
+            st0.targets[0], ast.Name) and isinstance(st0.value, ast.Call) \
+            and prog.ext_name(fn.module, st0.value.func) == 'tf.unstack' \
+            and st0.value.args:
+          src = dotted(st0.value.args[0])
+          if src in ('heights', H):
+            H = st0.targets[0].id
+          elif src in ('lengths', L):
+            L = st0.targets[0].id
+      SLOPE = ('%s[i-1]*(%s[i]/%s[i-1])' % (H, L, L),
+               '%s[i-1]*%s[i]/%s[i-1]' % (H, L, L))
       temp_def = {}
       for st in loop.body:
         if isinstance(st, ast.Assign) and isinstance(st.targets[0], ast.Name):
@@ -231,13 +244,16 @@ def _sign_ops(prog, res):
                 args = [norm_text(x) for x in a.value.args]
                 if len(args) == 2:
                   second = temp_def.get(args[1], args[1].replace(' ', ''))
+                  # unstacked in place
+                  second = second.replace('tf.unstack(lengths,axis=0)', L) \
+                      .replace('tf.unstack(heights,axis=0)', H)
                   if second in SLOPE:
                     temp_ok = True
                     args[1] = 'temp'
                 ops[sign] = (prog.ext_name(fn.module, a.value.func), args)
           for sign, exp in ((1, 'tf.maximum'), (-1, 'tf.minimum')):
             got = ops.get(sign, (None, []))
-            res.check(got[0] == exp and got[1] == ['heights[i]', 'temp'],
+            res.check(got[0] == exp and got[1] == ['%s[i]' % H, 'temp'],
                       'P3', '%s|convexity=%d' % (fn.qualname, sign),
                       fn.loc(st),
                       'convexity %d -> %s(heights[i], scaled previous '
